@@ -51,6 +51,9 @@ def run_check(ctx, pid, prop_mods, marks, text, design_ref):
                                  "replay_how": "echo '<input>' | /verif/harness/target/debug/oq3-run tree"})
     from . import incwrap as IW
     IW.through_entry_points(ctx, pid, [r["text"] for r in recs], failures)
+    nsearch = 0
+    if ndis and not failures:
+        nsearch = search_near_disagreements(ctx, [r for r in recs if r["dis"]], marks, failures)
     sema_cov = {}
     if pid == "C12":
         sema_cov = sema_ranges(ctx, failures)
@@ -71,6 +74,43 @@ def run_check(ctx, pid, prop_mods, marks, text, design_ref):
         "rowan (green tree, text_range) is modelled as a rose tree with ranges derived from leaf lengths; that the real ranges tile is checked by the oracle on every case",
         "escape-sequence diagnostics of validate_literal (oq3_lexer::unescape) are not modelled; their spans are checked on the implementation only"],
         assumptions=["texts < 2^32 bytes"])
+
+
+def search_near_disagreements(ctx, drecs, marks, failures, limit=60):
+    """The correspondence broke but no case of this run fails the oracle: search the NEIGHBOURHOOD of the disagreeing
+    texts (truncations at lexeme boundaries, deletion of one lexeme, of one statement, of everything but one
+    statement) for a text on which the implementation fails the property's oracle.  A defect that is masked in the
+    disagreeing text by an unrelated diagnostic (e.g. a silent ERROR token next to another error) shows up once the
+    other error is cut away."""
+    cand = []
+    for r in drecs[:limit]:
+        t = r["text"]
+        toks = re.findall(r"\s+|\w+|.", t, flags=re.S)
+        if len(toks) > 80:
+            continue
+        for i in range(1, len(toks)):
+            cand.append("".join(toks[:i])); cand.append("".join(toks[i:]))
+        for i in range(len(toks)):
+            cand.append("".join(toks[:i] + toks[i + 1:]))
+        parts = re.split(r"(?<=[;}\n])", t)
+        for i in range(len(parts)):
+            cand.append(parts[i]); cand.append("".join(parts[:i] + parts[i + 1:]))
+            cand.append(parts[i].rstrip("\n") + ";\nqubit q;\n")
+    cand = C.uniq([c for c in cand if c.strip()])[:20000]
+    out = C.run_impl(ctx, "tree", [G.enc(c) for c in cand], tag="near")
+    for c, t in zip(cand, out):
+        if PL.canon_panic(t) or ";oracle=" not in t:
+            continue
+        orc = t.split(";oracle=", 1)[1]
+        if orc == "ok":
+            continue
+        for item in orc[5:].split("|"):
+            if any(mk in item for mk in marks):
+                failures.append({"case": G.enc(c), "check": "oracle", "detail": {"text": c, "what": item, "found_by": "search near a model/implementation disagreement"},
+                                 "guards": set(), "model_agrees": False,
+                                 "replay_how": "echo '<input>' | /verif/harness/target/debug/oq3-run tree"})
+    ctx.coverage["searched_near_disagreements"] = len(cand)
+    return len(cand)
 
 
 RENAMES = [("a", "α"), ("b", "bé"), ("c", "ℂ"), ("q", "qµ"), ("r", "ρ"), ("n", "ñ"), ("m", "μ")]
